@@ -219,19 +219,24 @@ theorem broadcast_exact (cfg : Cfg ρ) (hr : cfg.Repaired) (h : List (Event ρ))
 
 The router the bus routes through is the `router.MessageRouter` of C12, filled by `Bus.dbus_AddMatch`.  The
 bus model is instantiated with `FullRule` (= the kwargs `dbus_AddMatch` hands to `router.addMatch`, C12's
-`RuleArgs`) and the predicate `fullCfg b` = C12's code models `mkRule` and `Rule.match` on `ruleView m`
+`RuleArgs`) and the predicate `fullCfg b` = C12's code models `mkRule` and `Rule.matchWith b` on `ruleView m`
 (what `Rule.match` sees of the bus's message object, true sender).  `b` says whether the router evaluates
 `arg0namespace` (`false`: txdbus as found - finding `arg0namespace-constraint-ignored`; `true`: after
-fixes/C14-05; the driver takes it from `Gen.BusRoute.evaluatesArg0ns`, probed from router.py on every run).
-The matching relation of the statements is the SPECIFICATION: `busSpecMatches b` = C12's `Spec.specMatches`
-(and the DBus clause for `arg0namespace` when `b`).  `sender` is in neither (known finding
-`sender-constraint-ignored`: stored, never evaluated - unchanged). -/
+fixes/C14-05); the driver takes it from C12's table `Gen.Route.evaluatesArg0ns`, probed from router.py on every run
+(one switch for both properties).
+
+The matching relation of the statements is ONE fixed relation, `busSpecMatches ownerName` (Bus/RouteFullSpec.lean):
+C12's `Spec.specMatchesFull` (the DBus rule language over all keys, written from the specification text) and the
+`sender` clause (true unique name / owner of the well-known name).  It does not depend on `b`.  txdbus evaluates
+neither `sender` nor (as found) `arg0namespace`, so the theorems carry the hypothesis `FullRule.InSpec b` on the HELD
+rules: values not empty (C12's `WFAll`), no `sender` constraint, no `arg0namespace` constraint unless `b`.  Without it
+the statements are false for txdbus: witnesses `sender_constraint_is_ignored_full`, `arg0namespace_is_ignored`. -/
 
 open Txdbus.Route (RuleArgs Tables renderRule parseRuleGen)
 
 /-- C12's equivalence theorem `match_eq_spec`, carried over to the bus as found: the rule stored for the
 kwargs `a` hands the bus's message object `m` to the holder iff `ruleView m` satisfies `a` in the sense of C12's
-specification `specMatches` - for every well-formed rule over all keys and every message. -/
+relation `specMatches` (all keys but `sender` and `arg0namespace`) - for every well-formed rule and every message. -/
 theorem bus_rule_matches_iff_c12_spec (a : FullRule) (m : Msg) (hwf : RuleArgs.WF a) :
     (fullCfg false).holds a m = true ↔ Txdbus.Route.Spec.specMatches a (ruleView m) = true := by
   obtain ⟨r, hr, hiff⟩ := Txdbus.Route.match_eq_spec a (ruleView m) hwf
@@ -239,16 +244,29 @@ theorem bus_rule_matches_iff_c12_spec (a : FullRule) (m : Msg) (hwf : RuleArgs.W
   unfold FullRule.holdsWith
   rw [hr, ← hiff]
   simp only [beq_iff_eq]
-  rw [fullMatch_call_iff]
-  simp
+  unfold Txdbus.Route.Rule.matchWith
+  cases r.match (ruleView m) <;> simp
 
-/-- ... and for either router (`b`): the code model holds iff the specification (`specMatches`, plus the
-`arg0namespace` clause of the DBus specification when the router evaluates that key) does. -/
-theorem full_rule_matches_iff_spec (b : Bool) (a : FullRule) (m : Msg) (hwf : FullRule.WF b a) :
-    (fullCfg b).holds a m = true ↔ busSpecMatches b a (ruleView m) = true := by
+/-- C12's `match_eq_spec_with`, carried over: for either router `b`, every rule without empty values (any keys,
+`sender` and `arg0namespace` included) and every message, the bus's rule predicate is C12's relation FOR THAT ROUTER
+(`specMatchesWith b`: `arg0namespace` in it iff evaluated, `sender` never).  This is "the code is its model's
+relation"; the property's relation is the next theorem. -/
+theorem bus_rule_matches_iff_c12_relation (b : Bool) (a : FullRule) (m : Msg) (hwf : RuleArgs.WFAll a) :
+    (fullCfg b).holds a m = true ↔ Txdbus.Route.Spec.specMatchesWith b a (ruleView m) = true := by
+  obtain ⟨r, hr, hiff⟩ := Txdbus.Route.match_eq_spec_with b a (ruleView m) hwf
+  show FullRule.holdsWith Tables.gen b a m = true ↔ _
+  unfold FullRule.holdsWith
+  rw [hr, ← hiff]
+  simp only [beq_iff_eq]
+
+/-- For a rule inside `InSpec b` the bus's rule predicate is the PROPERTY's relation (all keys of the DBus rule
+language, `sender` clause included - vacuous here because `InSpec` excludes `sender` constraints). -/
+theorem full_rule_matches_iff_spec (b : Bool) (ownerName : Name → Option Name) (a : FullRule) (m : Msg)
+    (h : FullRule.InSpec b a) :
+    (fullCfg b).holds a m = true ↔ busSpecMatches ownerName a (ruleView m) = true := by
   show FullRule.holdsWith Tables.gen b a m = true ↔ _
   rw [Txdbus.Route.gen_eq_cur]
-  exact holds_iff_spec_cur b a m hwf
+  exact holds_iff_spec_cur b ownerName a m h
 
 /-- The rules the router holds were registered by AddMatch events of the history, by their holders (together
 with `rules_held_by_connected_clients`: the table is `heldAfter h`, every holder is connected). -/
@@ -256,32 +274,29 @@ theorem held_rules_were_registered (h : List (Event ρ)) (j : ConnId) (r : ρ) (
     ∃ m, Event.msg j m (.addMatch r) ∈ h :=
   heldAfter_mem h j r hm
 
-/-- `broadcast_exact` for the full rule language, against the SPECIFICATION.  After any history in which
-the registered rules are well-formed (any keys: type, sender, interface, member, path, path_namespace,
-destination, argN, argNpath, arg0namespace), a message without destination from a live connection `i` is
-delivered - one copy per held rule, to its holder, in registration order, re-marshalled under `i`'s true
-name - for exactly the held rules that the message object SATISFIES (`busSpecMatches`: C12's `specMatches`
-on `ruleView`, true sender); so connection `j` receives it iff it is connected and holds a rule the signal
-satisfies. -/
-theorem broadcast_exact_full (b : Bool) (h : List (Event FullRule)) (wf : ∀ e ∈ h, e.wf)
-    (rwf : ∀ e ∈ h, e.ruleWF b) (i : ConnId) (m : Msg) (op : BusOp FullRule)
-    (hd : truthy m.dest = false) (hl : Live (final (fullCfg b) State.init h) i) :
+/-- `broadcast_exact` for the full rule language, against the property's relation.  After any history (any
+registrations by anybody, earlier or elsewhere) such that the rules HELD at that moment are inside `InSpec b`, a
+message without destination from a live connection `i` is delivered - one copy per held rule, to its holder, in
+registration order, re-marshalled under `i`'s true name - for exactly the held rules that the message object
+SATISFIES (`busSpecMatches`: every key of the DBus rule language, true sender); so connection `j` receives it iff it
+is connected and holds a rule the signal satisfies. -/
+theorem broadcast_exact_full (b : Bool) (ownerName : Name → Option Name) (h : List (Event FullRule))
+    (wf : ∀ e ∈ h, e.wf) (hheld : ∀ e ∈ heldAfter h, FullRule.InSpec b e.2) (i : ConnId) (m : Msg)
+    (op : BusOp FullRule) (hd : truthy m.dest = false) (hl : Live (final (fullCfg b) State.init h) i) :
     let r := step (fullCfg b) (final (fullCfg b) State.init h) (.msg i m op)
     ∃ n, nameOf r.1 i = some n ∧
-    r.2.deliveries = ((heldAfter h).filter (fun e => busSpecMatches b e.2 (ruleView (withSender m (some n))))).map
+    r.2.deliveries = ((heldAfter h).filter
+        (fun e => busSpecMatches ownerName e.2 (ruleView (withSender m (some n))))).map
       (fun e => ⟨e.1, .fwd i (remarshal m n)⟩) ∧
     (∀ j, (∃ dl ∈ r.2.deliveries, dl.to = j) ↔
-      (Live r.1 j ∧ ∃ a, (j, a) ∈ heldAfter h ∧ busSpecMatches b a (ruleView (withSender m (some n))) = true)) := by
+      (Live r.1 j ∧ ∃ a, (j, a) ∈ heldAfter h ∧
+        busSpecMatches ownerName a (ruleView (withSender m (some n))) = true)) := by
   intro r
   obtain ⟨n, hn, hdl, hiff⟩ := broadcast_exact (fullCfg b) ⟨rfl, rfl⟩ h wf i m op hd hl
-  have hwfheld : ∀ e ∈ heldAfter h, FullRule.WF b e.2 := by
-    intro e he
-    obtain ⟨m', hm'⟩ := heldAfter_mem h e.1 e.2 he
-    exact rwf _ hm'
   have heq : ∀ e ∈ heldAfter h, (fullCfg b).holds e.2 (withSender m (some n))
-      = busSpecMatches b e.2 (ruleView (withSender m (some n))) := by
+      = busSpecMatches ownerName e.2 (ruleView (withSender m (some n))) := by
     intro e he
-    exact Bool.eq_iff_iff.mpr (full_rule_matches_iff_spec b e.2 _ (hwfheld e he))
+    exact Bool.eq_iff_iff.mpr (full_rule_matches_iff_spec b ownerName e.2 _ (hheld e he))
   refine ⟨n, hn, ?_, fun j => ?_⟩
   · rw [show r.2.deliveries = _ from hdl]
     congr 1
@@ -293,10 +308,13 @@ theorem broadcast_exact_full (b : Bool) (h : List (Event FullRule)) (wf : ∀ e 
     · rintro ⟨hlive, a, ha, hh⟩
       exact ⟨hlive, a, ha, by rw [heq (j, a) ha]; exact hh⟩
 
-/-- The same for txdbus as found, with C12's specification verbatim: a broadcast reaches exactly the
-connections holding a rule that `Route.Spec.specMatches` it. -/
-theorem broadcast_exact_c12_spec (h : List (Event FullRule)) (wf : ∀ e ∈ h, e.wf)
-    (rwf : ∀ e ∈ h, e.ruleWF false) (i : ConnId) (m : Msg) (op : BusOp FullRule)
+/-- PARTIAL (the relation is not the property's): txdbus as found, held rules with ANY keys (only: no empty
+values), against C12's `Route.Spec.specMatches` verbatim - which has no `sender` and no `arg0namespace` clause.
+Missing for the full statement: for held rules with a `sender` or an `arg0namespace` constraint the bus delivers
+although the property's relation says no (the two findings); the full statement is `broadcast_exact_full`, which
+excludes such rules by hypothesis. -/
+theorem broadcast_exact_found_router_partial (h : List (Event FullRule)) (wf : ∀ e ∈ h, e.wf)
+    (hheld : ∀ e ∈ heldAfter h, RuleArgs.WF e.2) (i : ConnId) (m : Msg) (op : BusOp FullRule)
     (hd : truthy m.dest = false) (hl : Live (final (fullCfg false) State.init h) i) :
     let r := step (fullCfg false) (final (fullCfg false) State.init h) (.msg i m op)
     ∃ n, nameOf r.1 i = some n ∧
@@ -304,11 +322,68 @@ theorem broadcast_exact_c12_spec (h : List (Event FullRule)) (wf : ∀ e ∈ h, 
       (Live r.1 j ∧ ∃ a, (j, a) ∈ heldAfter h ∧
         Txdbus.Route.Spec.specMatches a (ruleView (withSender m (some n))) = true)) := by
   intro r
-  obtain ⟨n, hn, _, hiff⟩ := broadcast_exact_full false h wf rwf i m op hd hl
+  obtain ⟨n, hn, _, hiff⟩ := broadcast_exact (fullCfg false) ⟨rfl, rfl⟩ h wf i m op hd hl
   refine ⟨n, hn, fun j => ?_⟩
-  have := hiff j
-  simp only [busSpecMatches_false] at this
-  exact this
+  rw [hiff j]
+  constructor
+  · rintro ⟨hlive, a, ha, hh⟩
+    exact ⟨hlive, a, ha, (bus_rule_matches_iff_c12_spec a _ (hheld (j, a) ha)).mp hh⟩
+  · rintro ⟨hlive, a, ha, hh⟩
+    exact ⟨hlive, a, ha, (bus_rule_matches_iff_c12_spec a _ (hheld (j, a) ha)).mpr hh⟩
+
+/-! ### the bus's own broadcasts (NameOwnerChanged) -/
+
+/-- The signals the bus itself sends while it executes a method for connection `i` (a call addressed to the bus that
+reaches a method - `exec effs`: RequestName, ReleaseName ... - and is not the Hello short-cut): for every effect
+list, the bus signals of the step are, in order, exactly what the SPECIFICATION prescribes for each effect
+(`specEffectDeliveries`): a `signalTo j` goes to `j`; a `broadcast` (NameOwnerChanged) goes, one copy per held rule
+that the signal SATISFIES (`busSpecMatches`; held rules of the history, inside `InSpec b`), to the holders and to nobody
+else. -/
+theorem bus_broadcast_exact_full (b : Bool) (ownerName : Name → Option Name) (h : List (Event FullRule))
+    (wf : ∀ e ∈ h, e.wf) (hheld : ∀ e ∈ heldAfter h, FullRule.InSpec b e.2) (i : ConnId) (m : Msg)
+    (effs : List Effect) (hcall : m.mtype = .call) (hd : m.dest = some busName)
+    (hl : Live (final (fullCfg b) State.init h) i)
+    (hnh : ¬ (helloCalled (final (fullCfg b) State.init h) i = false ∧ m.member = some helloMember)) :
+    let r := step (fullCfg b) (final (fullCfg b) State.init h) (.msg i m (.exec effs))
+    r.2.deliveries.filter Delivery.isSig
+      = effs.flatMap (specEffectDeliveries ownerName (heldAfter h) (nameOf r.1)) := by
+  intro r
+  have hr : (fullCfg b).Repaired := ⟨rfl, rfl⟩
+  have inv := final_inv hr (Inv.init (ρ := FullRule)) h
+  obtain ⟨hheldBy, _⟩ := rules_held_by_connected_clients (fullCfg b) hr h wf
+  obtain ⟨c, hc, hconn⟩ := live_conn hl
+  have ns := ensureNamed_spec inv i c hc hconn
+  have hcalled : helloCalled (final (fullCfg b) State.init h) i = c.calledHello := by
+    simp [helloCalled, hc]
+  rw [hcalled] at hnh
+  have hstep : r = stepNamed (fullCfg b) (ensureNamed (final (fullCfg b) State.init h) i c).1 i
+      (ensureNamed (final (fullCfg b) State.init h) i c).2.1 (ensureNamed (final (fullCfg b) State.init h) i c).2.2
+      c.calledHello m (.exec effs) := step_msg_live (fullCfg b) _ i m (.exec effs) c hc hconn
+  obtain ⟨hsigs, hconns⟩ := stepNamed_exec_sigs hr (ensureNamed (final (fullCfg b) State.init h) i c).1 i
+    (ensureNamed (final (fullCfg b) State.init h) i c).2.1 (ensureNamed (final (fullCfg b) State.init h) i c).2.2
+    c.calledHello m effs hcall hd hnh
+  rw [hstep, hsigs]
+  congr 1
+  funext e
+  have hname : ∀ j, nameOf (stepNamed (fullCfg b) (ensureNamed (final (fullCfg b) State.init h) i c).1 i
+      (ensureNamed (final (fullCfg b) State.init h) i c).2.1 (ensureNamed (final (fullCfg b) State.init h) i c).2.2
+      c.calledHello m (.exec effs)).1 j = ((ensureNamed (final (fullCfg b) State.init h) i c).1.conns[j]?).bind (·.uniqueName) := by
+    intro j; unfold nameOf; rw [hconns]
+  cases e with
+  | setOwner n j => rfl
+  | unsetOwner n => rfl
+  | signalTo j member body args =>
+    simp only [applyEffect, specEffectDeliveries, hname]
+  | broadcast member body args =>
+    simp only [applyEffect, specEffectDeliveries]
+    rw [route_eq_held]
+    have hhb : heldBy (ensureNamed (final (fullCfg b) State.init h) i c).1 = heldAfter h := by
+      rw [← hheldBy]; unfold heldBy; rw [ns.rules]
+    rw [hhb]
+    congr 1
+    apply List.filter_congr
+    intro e he
+    exact Bool.eq_iff_iff.mpr (full_rule_matches_iff_spec b ownerName e.2 _ (hheld e he))
 
 /-! ### the AddMatch text -/
 
@@ -328,29 +403,46 @@ theorem addmatch_text_roundtrip (a : RuleArgs) :
     unfold FullRule.holdsWith
     rw [Txdbus.Route.bus_rule_is_client_rule a]
 
-/-- A rule registered through the text a txdbus client sends for well-formed constraints `a` matches exactly
+/-- A rule registered through the text a txdbus client sends for constraints `a` inside `InSpec b` matches exactly
 the messages that satisfy `a`. -/
-theorem client_text_rule_matches_spec (b : Bool) (a : RuleArgs) (hwf : FullRule.WF b a) (m : Msg) :
+theorem client_text_rule_matches_spec (b : Bool) (ownerName : Name → Option Name) (a : RuleArgs)
+    (hwf : FullRule.InSpec b a) (m : Msg) :
     ∃ r, addMatchOp (renderRule a) = some (.addMatch r) ∧
-      ((fullCfg b).holds r m = true ↔ busSpecMatches b a (ruleView m) = true) := by
+      ((fullCfg b).holds r m = true ↔ busSpecMatches ownerName a (ruleView m) = true) := by
   obtain ⟨h1, h2⟩ := addmatch_text_roundtrip a
-  exact ⟨a.normalize, h1, by rw [h2 b m]; exact full_rule_matches_iff_spec b a m hwf⟩
+  exact ⟨a.normalize, h1, by rw [h2 b m]; exact full_rule_matches_iff_spec b ownerName a m hwf⟩
 
-/-- Histories whose AddMatch calls carry client-written texts of well-formed constraints satisfy the
-hypothesis of `broadcast_exact_full`. -/
-theorem client_text_events_are_wf (b : Bool) (e : Event FullRule) (h : e.fromClientText b) : e.ruleWF b := by
-  cases e with
-  | connect => trivial
-  | disconnect i effs => trivial
-  | msg i m op =>
-    cases op with
-    | always => trivial
-    | exec effs => trivial
-    | addMatch r =>
-      obtain ⟨a, hwf, _, hop⟩ := h
-      rw [(addmatch_text_roundtrip a).1] at hop
-      cases hop
-      exact hwf.normalize
+/-- Histories whose AddMatch calls carry client-written texts of constraints inside `InSpec b` satisfy the
+hypothesis of `broadcast_exact_full` / `bus_broadcast_exact_full`. -/
+theorem client_text_history_held_in_spec (b : Bool) (h : List (Event FullRule))
+    (hct : ∀ e ∈ h, e.fromClientText b) : ∀ e ∈ heldAfter h, FullRule.InSpec b e.2 := by
+  intro e he
+  obtain ⟨m, hm⟩ := heldAfter_mem h e.1 e.2 he
+  obtain ⟨a, hwf, _, hop⟩ := hct _ hm
+  rw [(addmatch_text_roundtrip a).1] at hop
+  have hn : a.normalize = e.2 := by
+    injection hop with h1
+    injection h1
+  rw [← hn]
+  exact hwf.normalize
+
+/-- ANY text (a foreign client's too): in a history whose AddMatch events are what the model reads from the text the
+call carries (`Event.textOK`: the driver enforces it on every line, `textOp`), every held rule is `dbus_AddMatch`'s
+reading (`parseRuleGen`: C12's model of `_parseMatchRule` + the kwargs loop) of the text of an AddMatch call that its
+holder sent.  (What that reading MEANS in terms of the DBus grammar is C12's `bus_scanner_follows_spec` /
+`client_text_means_constraints`; an end-to-end relation text -> `Spec.textMatches` for texts no txdbus client writes
+is not proved there.) -/
+theorem held_rules_come_from_texts (h : List (Event FullRule)) (ht : ∀ e ∈ h, e.textOK) (j : ConnId) (r : FullRule)
+    (hm : (j, r) ∈ heldAfter h) :
+    ∃ m t, Event.msg j m (.addMatch r) ∈ h ∧ ruleTextOf m = some t ∧ parseRuleGen t = .ok r := by
+  obtain ⟨m, hmem⟩ := heldAfter_mem h j r hm
+  obtain ⟨_, h2⟩ := ht _ hmem
+  obtain ⟨t, ht1, ht2⟩ := h2 r rfl
+  refine ⟨m, t, hmem, ht1, ?_⟩
+  unfold addMatchOp at ht2
+  cases hp : parseRuleGen t with
+  | ok a => rw [hp] at ht2; simp only [Option.some.injEq, BusOp.addMatch.injEq] at ht2; rw [ht2]
+  | error e => rw [hp] at ht2; cases e <;> simp at ht2
 
 /-! ### order of broadcasts -/
 
@@ -380,14 +472,15 @@ fragment of `fullCfg b`. -/
 theorem simple_rules_embed (b : Bool) (r : SimpleRule) (hne : r.NonEmpty) (m : Msg) :
     (fullCfg b).holds r.toFull m = r.holds m := by
   apply Bool.eq_iff_iff.mpr
-  rw [full_rule_matches_iff_spec b r.toFull m (SimpleRule.toFull_wf b r hne), ← specMatches_toFull]
-  unfold busSpecMatches
+  rw [bus_rule_matches_iff_c12_relation b r.toFull m (SimpleRule.toFull_wf r hne),
+    specMatchesWith_inSpec b r.toFull _ (Or.inr rfl), ← specMatches_toFull]
+  unfold Txdbus.Route.Spec.specMatchesFull
   have : r.toFull.arg0ns = none := rfl
   rw [this]
   simp [Txdbus.Route.Spec.optAll]
 
 /-- ... and whole histories: over simple rules without empty values, the first version of the model (`repaired`,
-`SimpleRule.holds`) and the full model on the embedded rules (`fullCfg b`, C12's `Rule.match`) produce the same
+`SimpleRule.holds`) and the full model on the embedded rules (`fullCfg b`, C12's `Rule.matchWith`) produce the same
 outputs, event by event - deliveries, names, `loseConnection`, everything observable.  Every statement of sections
 1-6 about `exec repaired` is therefore a statement about the full model. -/
 theorem simple_histories_embed (b : Bool) (h : List (Event { r : SimpleRule // r.NonEmpty })) :
@@ -402,7 +495,6 @@ theorem simple_histories_embed (b : Bool) (h : List (Event { r : SimpleRule // r
   have e2 := exec_map h2 State.init h
   rw [init_map] at e1 e2
   rw [e1, e2]
-
 
 /-! ## the hypotheses are satisfiable, the statements are not vacuous -/
 
@@ -513,10 +605,10 @@ example : addMatchOp "type='signal',arg1path='/x/'".toList = some (.addMatch rul
 /-- A text without `=` is a ValueError inside `dbus_AddMatch`: an executed method that registers nothing. -/
 example : addMatchOp "nonsense".toList = some (.exec []) := by rfl
 
-private theorem ruleNsArg_wf (b : Bool) : FullRule.WF b ruleNsArg :=
-  ⟨⟨by decide, by decide, by decide, by decide, by decide, by decide⟩, fun _ => by decide⟩
-private theorem ruleNs0_wf (b : Bool) : FullRule.WF b ruleNs0 :=
-  ⟨⟨by decide, by decide, by decide, by decide, by decide, by decide⟩, fun _ => by decide⟩
+private theorem ruleNsArg_wf (b : Bool) : FullRule.InSpec b ruleNsArg :=
+  ⟨⟨⟨by decide, by decide, by decide, by decide, by decide, by decide⟩, by decide⟩, rfl, Or.inr rfl⟩
+private theorem ruleNs0_wf : FullRule.InSpec true ruleNs0 :=
+  ⟨⟨⟨by decide, by decide, by decide, by decide, by decide, by decide⟩, by decide⟩, rfl, Or.inl rfl⟩
 
 /-- three clients say Hello; client 2 registers `path_namespace='/x',arg0='hi'`, client 1 `arg0namespace='org.ex'` -/
 private def setupFull : List (Event FullRule) :=
@@ -525,19 +617,38 @@ private def setupFull : List (Event FullRule) :=
    .msg 2 (addMatchCall 4 "path_namespace='/x',arg0='hi'") (.addMatch ruleNsArg),
    .msg 1 (addMatchCall 5 "arg0namespace='org.ex'") (.addMatch ruleNs0)]
 
-/-- The hypotheses of `broadcast_exact_full` hold for this history (either router). -/
+example : heldAfter setupFull = [(2, ruleNsArg), (1, ruleNs0)] := by decide
+example : heldAfter setupFull.dropLast = [(2, ruleNsArg)] := by decide
+
+/-- The hypotheses of `broadcast_exact_full` / `bus_broadcast_exact_full` hold for this history on the repaired router,
+and for the history without the `arg0namespace` registration on txdbus as found. -/
 example : ∀ e ∈ setupFull, e.wf := by simp [setupFull, Event.wf, addMatchCall]
-example (b : Bool) : ∀ e ∈ setupFull, e.ruleWF b := by
+example : ∀ e ∈ heldAfter setupFull, FullRule.InSpec true e.2 := by
+  rw [show heldAfter setupFull = [(2, ruleNsArg), (1, ruleNs0)] by decide]
   intro e he
-  simp only [setupFull, List.mem_cons, List.mem_nil_iff, or_false] at he
-  rcases he with rfl | rfl | rfl | rfl | rfl | rfl | rfl | rfl
-  all_goals first | exact trivial | exact ruleNsArg_wf b | exact ruleNs0_wf b
-/-- ... and its AddMatch calls are what a txdbus client sends for those constraints. -/
+  simp only [List.mem_cons, List.mem_nil_iff, or_false] at he
+  rcases he with rfl | rfl
+  · exact ruleNsArg_wf true
+  · exact ruleNs0_wf
+example : ∀ e ∈ heldAfter setupFull.dropLast, FullRule.InSpec false e.2 := by
+  rw [show heldAfter setupFull.dropLast = [(2, ruleNsArg)] by decide]
+  intro e he
+  simp only [List.mem_cons, List.mem_nil_iff, or_false] at he
+  subst he
+  exact ruleNsArg_wf false
+/-- ... its AddMatch calls are what a txdbus client sends for those constraints, and what the model reads from the text
+they carry. -/
 example (b : Bool) : Event.fromClientText b (.msg 2 (addMatchCall 4 "path_namespace='/x',arg0='hi'") (.addMatch ruleNsArg)) :=
   ⟨ruleNsArg, ruleNsArg_wf b, by decide, by rfl⟩
+example : Event.textOK (.msg 2 (addMatchCall 4 "path_namespace='/x',arg0='hi'") (.addMatch ruleNsArg)) :=
+  ⟨by rfl, fun r hr => ⟨"path_namespace='/x',arg0='hi'".toList, by decide, by
+    have : r = ruleNsArg := by injection hr with h; exact h.symm
+    rw [this]; rfl⟩⟩
+/-- a foreign client's text: unquoted value, unknown key - the model's reading of it -/
+example : textOp (addMatchCall 4 "type=signal,eavesdrop=true,arg0='hi'") (.addMatch {})
+    = .addMatch { mtype := some (nm "signal"), args := some [(0, nm "hi")] } := by rfl
+example : textOp (addMatchCall 4 "nonsense") (.addMatch {}) = .exec [] := by rfl
 example : Live (final (fullCfg false) State.init setupFull) 0 := by unfold Live; decide
-example : heldAfter setupFull = [(2, ruleNsArg), (1, ruleNs0)] := by decide
-
 /-- A broadcast on /x/y with first argument 'hi': client 2's rule is satisfied (descendant of /x, arg0 = 'hi').
 txdbus as found also delivers to client 1, whose rule asks for the namespace org.ex (finding
 `arg0namespace-constraint-ignored`); the repaired router does not. -/
@@ -550,8 +661,8 @@ example : ((step (fullCfg true) (final (fullCfg true) State.init setupFull)
       (.msg 0 (fsig "/xy" (some [.str (nm "hi")])) (.exec []))).2.deliveries.map (·.to)) = [] := by decide
 example : ((step (fullCfg true) (final (fullCfg true) State.init setupFull)
       (.msg 0 (fsig "/xy" (some [.str (nm "org.ex.A"), .other])) (.exec []))).2.deliveries.map (·.to)) = [1] := by decide
-example : busSpecMatches true ruleNsArg (ruleView (fsig "/x/y" (some [.str (nm "hi")]))) = true := by decide
-example : busSpecMatches true ruleNsArg (ruleView (fsig "/xy" (some [.str (nm "hi")]))) = false := by decide
+example : busSpecMatches (fun _ => none) ruleNsArg (ruleView (fsig "/x/y" (some [.str (nm "hi")]))) = true := by decide
+example : busSpecMatches (fun _ => none) ruleNsArg (ruleView (fsig "/xy" (some [.str (nm "hi")]))) = false := by decide
 
 /-- Finding `arg0namespace-constraint-ignored`, on the model of txdbus as found: the rule
 `arg0namespace='org.ex.A'` selects a signal whose first argument is 'org.ex.B', which the specification's clause
@@ -559,14 +670,32 @@ rejects; the model of the repaired router (fixes/C14-05) rejects it too. -/
 theorem arg0namespace_is_ignored :
     let r : FullRule := { arg0ns := some (nm "org.ex.A") }
     let m := fsig "/x" (some [.str (nm "org.ex.B")])
-    (fullCfg false).holds r m = true ∧ busSpecMatches true r (ruleView m) = false ∧
+    (fullCfg false).holds r m = true ∧ busSpecMatches (fun _ => none) r (ruleView m) = false ∧
     (fullCfg true).holds r m = false := by decide
 
 /-- The known finding `sender-constraint-ignored` is unchanged on the full model, for either router: a rule for
 sender ':1.2' selects a signal from ':1.7'. -/
 theorem sender_constraint_is_ignored_full :
     (fullCfg false).holds { sender := some (nm ":1.2") } (fsig "/x" none) = true ∧
-    (fullCfg true).holds { sender := some (nm ":1.2") } (fsig "/x" none) = true := by decide
+    (fullCfg true).holds { sender := some (nm ":1.2") } (fsig "/x" none) = true ∧
+    busSpecMatches (fun _ => none) { sender := some (nm ":1.2") } (ruleView (fsig "/x" none)) = false := by decide
+
+/-- The defect's exemplar path, the bus's OWN broadcast: connection 1 holds `arg0namespace='org.ex.A'`; connection 0
+calls RequestName('org.ex.B'), the name function broadcasts NameOwnerChanged('org.ex.B', '', ':1.1').  txdbus as found
+delivers it to connection 1; the repaired router, like `specEffectDeliveries`, to nobody. -/
+theorem bus_signal_ignores_arg0namespace :
+    let setup : List (Event FullRule) :=
+      [.connect, .connect, .msg 0 (helloMsg 1) (.exec []), .msg 1 (helloMsg 2) (.exec []),
+       .msg 1 (addMatchCall 3 "arg0namespace='org.ex.A'") (.addMatch { arg0ns := some (nm "org.ex.A") })]
+    let req : Msg := { helloMsg 4 with member := some (nm "RequestName"), body := nm "su:tok",
+                                       args := some [.str (nm "org.ex.B"), .other] }
+    let effs : List Effect := [.setOwner (nm "org.ex.B") 0,
+      .broadcast (nm "NameOwnerChanged") (nm "sss:tok") (some [.str (nm "org.ex.B"), .str [], .str (nm ":1.1")])]
+    ((step (fullCfg false) (final (fullCfg false) State.init setup) (.msg 0 req (.exec effs))).2.deliveries.filter
+        Delivery.isSig).map (·.to) = [1] ∧
+    ((step (fullCfg true) (final (fullCfg true) State.init setup) (.msg 0 req (.exec effs))).2.deliveries.filter
+        Delivery.isSig).map (·.to) = [] ∧
+    (effs.flatMap (specEffectDeliveries (fun _ => none) (heldAfter setup) (fun _ => none))).map (·.to) = [] := by decide
 
 /-- The embedding on an instance: the simple rule of the first examples and its full form select the same. -/
 example : SimpleRule.NonEmpty ruleI := by unfold SimpleRule.NonEmpty; decide
@@ -610,10 +739,14 @@ end Txdbus.BusRoute
 #print axioms Txdbus.BusRoute.full_rule_matches_iff_spec
 #print axioms Txdbus.BusRoute.held_rules_were_registered
 #print axioms Txdbus.BusRoute.broadcast_exact_full
-#print axioms Txdbus.BusRoute.broadcast_exact_c12_spec
+#print axioms Txdbus.BusRoute.broadcast_exact_found_router_partial
+#print axioms Txdbus.BusRoute.bus_rule_matches_iff_c12_relation
+#print axioms Txdbus.BusRoute.bus_broadcast_exact_full
+#print axioms Txdbus.BusRoute.held_rules_come_from_texts
+#print axioms Txdbus.BusRoute.bus_signal_ignores_arg0namespace
 #print axioms Txdbus.BusRoute.addmatch_text_roundtrip
 #print axioms Txdbus.BusRoute.client_text_rule_matches_spec
-#print axioms Txdbus.BusRoute.client_text_events_are_wf
+#print axioms Txdbus.BusRoute.client_text_history_held_in_spec
 #print axioms Txdbus.BusRoute.broadcast_order_preserved
 #print axioms Txdbus.BusRoute.broadcast_first_copies_in_order
 #print axioms Txdbus.BusRoute.simple_rules_embed
